@@ -249,9 +249,9 @@ func (f *format) parseReplay(input string) string {
 
 // =================== decoder cases ===================
 // <fmt>dec \t <B|R> <bufsize> <nexts> <script: hex[+e] ...> \t per Next: "EV toks R verdict ;" ...
-func (f *format) decRun(kind string, bufsize, nexts int, steps []readStep) string {
+func (f *format) decRun(kind string, bufsize, nexts, vfail int, steps []readStep) string {
 	var sb strings.Builder
-	rec := newRecorder(-1)
+	rec := newRecorder(vfail)
 	var dec decoderI
 	merge := func(evs []event) []event {
 		if f.mergeRefs {
@@ -378,16 +378,20 @@ func (f *format) decCase(r *rng) string {
 		steps = []readStep{{data: doc}}
 	}
 	nexts := k + 2
-	obs := f.decRun(kind, bufsize, nexts, steps)
+	vfail := -1
+	if r.chance(1, 6) {
+		vfail = r.n(10) // the visitor fails from its vfail-th event on (counted over all Next calls)
+	}
+	obs := f.decRun(kind, bufsize, nexts, vfail, steps)
 	if f.refTokens != nil {
 		obs += " ## REF " + f.refTokens(doc)
 	}
-	return fmt.Sprintf("%sdec\t%s %d %d %s\t%s", f.name, kind, bufsize, nexts, scriptTok(steps), obs)
+	return fmt.Sprintf("%sdec\t%s %d %d %d %s\t%s", f.name, kind, bufsize, nexts, vfail, scriptTok(steps), obs)
 }
 
 func (f *format) decReplay(input string) string {
 	fl := strings.Fields(input)
-	return f.decRun(fl[0], atoi(fl[1]), atoi(fl[2]), parseScript(fl[3:]))
+	return f.decRun(fl[0], atoi(fl[1]), atoi(fl[2]), atoi(fl[3]), parseScript(fl[4:]))
 }
 
 func registerFormat(f *format) {
